@@ -328,9 +328,9 @@ PROPS = {
                    '(both proved: rigid.cups / caps, Diagram.swap, part of this check); assumed: Upgrade is the identity on the modelled fields; '
                    'the functor is a homomorphism on tensors of types '
                    '(the `len(diagram) > 1` branch, as in C04) and sends a sub-diagram to a well-formed diagram F(dom) -> F(cod) '
-                   '(induction hypothesis at the recursive call in the Curry branch). Preconditions: for Curry 1 <= n_wires <= '
-                   'len(dom) (n_wires = 0 is outside the documented domain) and the image of the curried wires is not the '
-                   'unit type. The parser / generator / tree-walk clauses are bounded, not proved.',
+                   '(induction hypothesis at the recursive call in the Curry branch). Precondition for Curry: 0 <= n_wires <= '
+                   'len(dom) (zero wires and curried sides with an empty image are covered since fix 367f1b2). The parser / '
+                   'generator / tree-walk clauses are bounded, not proved.',
         technique='VCs from the real AST of the rule constructors, the functor dispatch and the rule images, discharged by '
                   'z3 / cvc5 over word equations with adjoints and slash types; bounded run-time contracts with independent '
                   're-derivation for the parser, generator and tree walk'),
